@@ -154,6 +154,13 @@ func tupleFromArgs(callable bool, args px.List) *TupleType {
 			panic(illegalArgumentType(name, failIdx, `Type`, args.At(failIdx)))
 		}
 	}
+	if callable && rng != nil && *rng == *IntegerTypeZero && len(tupleTypes) == 1 {
+		if _, ok = tupleTypes[0].(*UnitType); ok {
+			// Callable[Unit, 0, 0]: the Unit placeholder of Callable[min, max] with the size of Callable[0, 0],
+			// which is the empty parameter tuple (and is what such a type prints as)
+			return tupleTypeEmpty
+		}
+	}
 	return &TupleType{rng, givenOrActualRng, tupleTypes}
 }
 
